@@ -34,6 +34,7 @@ def run(ctx):
         r3(ctx, facts, cfg)
         r4(ctx, facts, cfg)
         r5(ctx, facts, cfg)
+        r5_clock_table(ctx, facts, cfg)
         from rules import c02
         bn = {m.base: m for m in facts.fns if m.config == cfg and m.cls == c02.CLS and not m.rec.get("ctor") and not m.rec.get("dtor")}
         if "empty" not in bn:
@@ -279,6 +280,74 @@ def r5(ctx, facts, cfg):
         ctx.ob("C05.R5", site, ok,
                "the clock is read before the reservation / blocking loop and never afterwards; the header carries that value "
                "(clock sources: %d)" % len(clock_srcs), fn=f)
+
+
+def clock_edges(g, enum_suffix):
+    """[(bid, label of 'clock source is <enum_suffix>')] over the comparisons of a clock_source member with that enumerator"""
+    out = []
+    for bid, b in g.blocks.items():
+        c = g.term_cond(bid)
+        nc = norm_cmp(c) if c is not None else None
+        if nc and nc[0] in ("==", "!=") and any(x["k"] == "MemberExpr" and x.get("mname") == "clock_source" for x in walk(c)) and \
+                any(x["k"] == "DeclRefExpr" and x.get("name", "").endswith("ClockSourceType::" + enum_suffix) for x in walk(c)):
+            out.append((bid, "T" if nc[0] == "==" else "F"))
+    return out
+
+
+def r5_clock_table(ctx, facts, cfg):
+    """R5c/R5d: which clock stamps a statement, and that the backend converts exactly the stamps that need it"""
+    en = facts.enum("quill::ClockSourceType", cfg)
+    if not en:
+        raise AnalysisBroken("ClockSourceType not found")
+    names = [n for (n, _v) in en["enumerators"]]
+    if sorted(names) != ["System", "Tsc", "User"]:
+        raise AnalysisBroken("ClockSourceType enumerators changed: %s — the clock table has to be re-confirmed" % names)
+    want = {"Tsc": r"::rdtsc$", "System": r"::get_timestamp_ns<std::chrono::(_V2::)?system_clock>$|::get_timestamp_ns<.*system_clock.*>$", "User": r"UserClockSource::now$"}
+    for f in facts.need("quill::LoggerImpl::log_statement", cfg, floor=8)[:8]:
+        g = f.g
+        hdr = need_some(f.calls(r"::_encode_header$"), "log_statement: _encode_header")
+        tv = var_ref(hdr[0]["args"][1])
+        asg = f.assignments_to_var(tv)
+        e_tsc, e_sys = clock_edges(g, "Tsc"), clock_edges(g, "System")
+        ok = bool(e_tsc) and bool(e_sys)
+        found = {}
+        for name, pat in want.items():
+            mine = [n for n in asg if any(is_call(x, pat) for x in walk(n["rhs"]))]
+            ps = npos(f, mine)
+            found[name] = len(mine)
+            if not ps:
+                ok = False
+                continue
+            if name == "Tsc":
+                ok = ok and not g.exists_path([g.entry_node], ps, avoid_edges=e_tsc)
+            elif name == "System":
+                ok = ok and not g.exists_path([g.entry_node], ps, avoid_edges=e_sys) and \
+                    not g.exists_path([g.entry_node], ps, avoid_edges=[(b, other(l)) for (b, l) in e_tsc])
+            else:
+                ok = ok and not g.exists_path([g.entry_node], ps, avoid_edges=[(b, other(l)) for (b, l) in e_tsc]) and \
+                    not g.exists_path([g.entry_node], ps, avoid_edges=[(b, other(l)) for (b, l) in e_sys])
+        site = "log_statement<%s>:clock-per-source" % f.name.split("LoggerImpl<")[1].split(">")[0]
+        ctx.ob("C05.R5c", site, ok,
+               "a Tsc logger stamps with rdtsc, a System logger with the system clock in nanoseconds, a User logger with its clock's "
+               "now(), each exactly on its own outcome of the clock-source tests (%s)" % found, fn=f)
+    df = facts.need(BW + "_populate_transit_event_from_frontend_queue", cfg)[0]
+    g = df.g
+    conv = [n for n in df.walk() if n["k"] == "BinaryOperator" and n["op"] == "=" and ts_member(n["lhs"]) and
+            any(is_call(x, r"RdtscClock::time_since_epoch$") for x in walk(n["rhs"])) and any(ts_member(x) for x in walk(n["rhs"]))]
+    cp = npos(df, conv)
+    e_tsc = clock_edges(g, "Tsc")
+    tsp = df.rec["params"][2]["did"]
+    holds = []
+    for bid, b in g.blocks.items():
+        c = g.term_cond(bid)
+        cs = cmp_sides(c) if c is not None else None
+        if cs and ((var_ref(cs[1]) == tsp and ts_member(cs[2])) or (var_ref(cs[2]) == tsp and ts_member(cs[1]))):
+            holds.append(tnode(g, bid))
+    ok = bool(cp) and bool(e_tsc) and bool(holds) and not g.exists_path([g.entry_node], cp, avoid_edges=e_tsc) and \
+        all(not g.exists_path([tnode(g, b)], holds + npos(df, df.calls(r"TransitEventBuffer::push_back$")), avoid_nodes=cp, avoid_edges=[(b, other(l))]) for (b, l) in e_tsc)
+    ctx.ob("C05.R5d", "_populate_transit_event_from_frontend_queue:tsc-converted-exactly", ok,
+           "the record's timestamp is replaced by RdtscClock::time_since_epoch(timestamp) exactly for loggers whose clock source is Tsc, "
+           "on every path before it is compared or buffered (cycle counts and epoch nanoseconds are never mixed in the ordering)", fn=df)
 
 
 def only_boolean_use(f, node, depth=0):
